@@ -371,6 +371,10 @@ class TorchDistributedCommunicator:
 
     def group_ranks(self, group: dist.ProcessGroup | None) -> frozenset[int]:
         """Get frozenset of ranks in group."""
+        if group is not None and dist.is_initialized():
+            # Distinct groups of equal size must not share a bucket so the
+            # key is the global ranks in the group rather than its size.
+            return frozenset(dist.get_process_group_ranks(group))
         return frozenset(range(get_world_size(group)))
 
     def flush_allreduce_buckets(self) -> None:
